@@ -51,8 +51,17 @@ def eval_case(case, rng, thorough):
             prev = [f for f in flows if f.kind == "tls" and f.conn.spec.version <= 0x0303 and f.conn.master is not None]
             resume = rng.choice(prev) if prev and rng.random() < 0.35 else None       # session resumption: same master secret, fresh randoms
             flows.append(gen.random_tls_flow(rng, i, ep=ep, nmax=6 if soak else 10, resume_of=resume, duplex=rng.random() < 0.3))
-    real = len(flows)
     noise = []
+    if not soak and mix != "tls" and rng.random() < 0.35:
+        # a QUIC connection on a port that is no TLS server port, and an unrelated plain TCP exchange between the same two hosts with the same port numbers (the TCP
+        # and UDP port spaces are independent): the TCP flow is nobody's business and must not touch the QUIC connection
+        ep2 = tcpcap.random_ep(rng, sport=rng.choice([4433, 8443, 784]), odd=0.0)
+        flows.append(gen.random_quic_flow(rng, len(flows), ep=ep2, napp=rng.choice([2, 4])))
+        segs2 = [tcpcap.Seg("c", 1, 1, 0x18, b"GET /twin HTTP/1.1\r\n\r\n" + rng.randbytes(rng.randrange(0, 50)), 0, 0), tcpcap.Seg("s", 1, 30, 0x18, b"HTTP/1.1 200 OK\r\n\r\n" + rng.randbytes(rng.randrange(0, 300)), 0, 1)]
+        twin = scene.Flow("noise", ep2, [scene.Item(tcpcap.frame(ep2, s_), dir=s_.dir, seg=s_, tag="tcp-twin-of-quic") for s_ in segs2])
+        twin.label = "tcp-twin"
+        noise.append(twin)
+    real = len(flows)
     if rng.random() < 0.5 and not soak:
         for k in range(rng.randrange(1, 4)):
             kind = rng.choice(["http", "other-port", "udp", "link"])
